@@ -47,6 +47,8 @@ Proof. exact (ul_draw_rx_val a b u). Qed.
 Theorem C09_sigma_rx_val sK0 P0 maxK P e sg :
   fcm_sigma_rx sK0 P0 maxK P e = Some sg -> rval sg = fcm_sigma (Q2R sK0) (Q2R P0) (Q2R maxK) (Q2R P) (Q2R e).
 Proof. exact (fcm_sigma_rx_val sK0 P0 maxK P e sg). Qed.
+Theorem C09_xterm_rx_val t x : rval (xterm_rx t x) = xterm_logp t (Q2R x).
+Proof. exact (xterm_rx_val t x). Qed.
 
 (* non-vacuity: a concrete draw inside a concrete support, decided by certified interval arithmetic *)
 Example C09_ex : ul_draw_obs_ok 2 1024 (1 # 2) (4525483399593904 # 100000000000000) (1 # 1000000000) = true.
@@ -63,3 +65,4 @@ Print Assumptions C09_fcm_variance_rule.
 Print Assumptions C09_logp_rx_val.
 Print Assumptions C09_draw_rx_val.
 Print Assumptions C09_sigma_rx_val.
+Print Assumptions C09_xterm_rx_val.
